@@ -10,16 +10,28 @@ NOTE = ('Trusted: Kani/CBMC/CaDiCaL; fixed-capacity array models of hashbrown/in
         'differentially tested against the real crates by setup); exact UTF-8 DFA stub for core::str::from_utf8; hand-written specification tables / reference encoders. '
         'Holds only inside the bounds written into the evidence file per harness; pointer checks off (safe Rust), Rust panics/overflow/bounds checks on.')
 
+STEP = ('one symbolic API step per harness from an assigned, script-reachable pre-state (ids, limits, timer values, reason codes, flags symbolic at full width), '
+        'post-conditions written over the post-state and the summarised event list, shared monitor for close ordering / timer consistency; inductive over histories inside the stated pre-state families')
 CLAIMS = {
-    'C09': ('5.C09', 'PacketBuilder::feed decided against a reference framing for all byte strings of 2-3 (thorough: 4) bytes, all 1-4 byte Remaining Length encodings, '
-                     'over-long lengths split at every point, and every partition into <=3 chunks (+ byte-at-a-time) of bounded streams with symbolic content; '
-                     'the right level because chunk-independence is a for-all-inputs x for-all-cuttings statement that BMC can exhaust within the stated stream shapes'),
-    'C15': ('5.C15', 'one symbolic API step per timer-relevant entry point from assigned reachable pre-states, with a timer monitor folding the event list (cancel only if armed, '
-                     'flags == fold, nothing armed when disconnected, exact intervals by priority) for all keep-alive/override/Server-Keep-Alive/timeout values; inductive over histories'),
-    'C18': ('5.C18', 'each private validate_*_properties function is decided against the specification table for property kind symbolic over all identifiers x occurrence count 1-2 x symbolic values, '
-                     'and every fixed-width / variable-byte property constructor and parser for all values; finite table fully covered except count>2'),
-    'C20': ('5.C20', 'inductive step of the allocator (arbitrary range, arbitrary valid pool of <=3 (thorough: 4) runs, one symbolic operation, universal probe) at full u16/u32 width + base case + u8 histories; '
-                     'base+step cover histories of any length whose pool stays within the run bound'),
+    'C02': ('5.C02', 'per packet kind and shape: builder -> size()/Remaining Length/contiguous/vectored serialisation -> parse, all compared byte for byte and by equality, for all field values of the shape (ids at full width, every reason code, flags, symbolic string/payload bytes); primitives (VBI, strings) at full width; property section on both sides of the 127/128 boundary. Bounded by the listed shapes (<=1 property, 1-3 byte strings, 2-byte payloads).'),
+    'C03': ('5.C03', 'same harnesses as C02 but the oracle is an independently written reference encoding per shape (bytes spelled out from the OASIS tables) and exhaustive u8 tables for property identifiers, every reason/return-code enum and QoS; accessors of parsed reference encodings compared with the abstract field values'),
+    'C04': ('5.C04', 'every parser on all byte strings up to N (N=3..6) and on every prefix of structured symbolic bodies; on acceptance: consumed <= given, size() == serialisation length, re-parse equal, builder rules (non-zero id, QoS<=2); Rust panics / out-of-bounds are failures by construction'),
+    'C05': ('5.C05', 'receive-step harnesses with boundary values (packet id 0, Topic Alias Maximum 0, keep-alive 65535, symbolic fixed-header byte dispatch), framing totality from C09, id-management totality; every panic/overflow/unwrap reachable inside the bounds is a failure. ' + STEP),
+    'C06': ('5.C06', STEP + '. Steps: send QoS1/2 PUBLISH in every status x persistence x offline flag, PUBREL in every status, PUBACK/PUBREC/PUBCOMP match / wrong kind / wrong id, erase, CONNACK resume (session present or not), server CONNACK resume, send_stored under a size limit, close.'),
+    'C07': ('5.C07', STEP + '. Steps: inbound QoS2 PUBLISH against a handled set (new / duplicate / id 0, DUP, auto response on/off), PUBREL, application PUBREC with every reason code, close (persistent or not), clean-start CONNECT on a reused object, export/restore of the handled set.'),
+    'C08': ('5.C08', 'PacketIdManager inductive step over an arbitrary valid allocator state at full u16 width (acquire / register / release, universal probe) + totality of the public id calls for every value incl. 0 + release monitor on the step harnesses of C06/C12/C14 (released exactly once, exactly when an in-use id becomes free; refusal paths; close)'),
+    'C09': ('5.C09', 'PacketBuilder::feed decided for all 1-4 byte Remaining Length encodings, over-long lengths split at every point, every partition into <=3 chunks (+ byte-at-a-time) of six concrete-shape streams with symbolic content against whole-frame feeding, and recv() one-packet-per-call / framing-error steps'),
+    'C10': ('5.C10', STEP + '. notify_closed from any status with symbolic leftovers (limits, alias tables, pending ids, timers, half-received frame); first step of the next connection (client CONNECT clean start vs. a fresh object, two objects compared field by field; server CONNECT after a connection with another keep-alive).'),
+    'C11': ('5.C11', 'public send() per (role, packet kind) with connection version, status, need_store and offline_publish symbolic (36 cells per harness, 93 harnesses = full matrix in the thorough tier; quick = const table + 5 harnesses) against the MQTT send rules; refused sends must leave state unchanged; compile-time Sendable table evaluated for 29 types x 3 roles'),
+    'C12': ('5.C12', STEP + '. Counter arithmetic at full u16 width: send at/below the limit, PUBACK/PUBREC(ok, error)/PUBCOMP match and mismatch, erase, retransmission on resume (server CONNACK), application PUBREC, inbound PUBLISH at the announced maximum.'),
+    'C13': ('5.C13', 'TopicAliasSend/Recv kernels against an independent receiver/LRU model (histories of 3 operations, max<=3) + ' + STEP + '. Steps: manual alias with topic (re-binding) compared with a receiver model, empty topic + alias, automatic replacement, automatic mapping, receive side bound/unbound/out of range, close.'),
+    'C14': ('5.C14', 'size kernel for all Remaining Lengths + ' + STEP + '. Steps with the limit symbolic around the concrete packet size: PUBACK, QoS1 PUBLISH, auto-mapped PUBLISH, send_stored (PUBLISH and PUBREL), inbound frame.'),
+    'C15': ('5.C15', STEP + '. Timer monitor on every step (cancel only if armed, flags == fold of events, nothing armed when disconnected, exact intervals by priority) for all keep-alive / override / Server Keep Alive / timeout values: PINGREQ send, DISCONNECT, the three expiries, PINGRESP, close, server CONNECT (after another keep-alive), PUBREL while disconnected.'),
+    'C16': ('5.C16', STEP + '. restore_packets (v3.1.1 / v5.0: PUBLISH QoS1, QoS2, PUBREL; duplicate ids) then wait sets / in-use ids / order / re-acquire, handled-set export->restore equality, CONNACK resume from a restored store; the crash-point quantifier is discharged by state equality (exportable state = store + handled set).'),
+    'C17': ('5.C17', 'can_receive for all u8 x version x role against the MQTT table + process_recv_packet with a symbolic fixed-header byte per role/version (rejected => only a protocol error and state untouched; accepted => the handler of that type ran) + undetermined-version first packet for all protocol levels. ' + STEP),
+    'C18': ('5.C18', 'each private validate_*_properties function decided against the specification table for property kind symbolic over all identifiers x occurrence count 1-2 x symbolic values, and every fixed-width / variable-byte property constructor and parser for all values; finite table fully covered except count>2'),
+    'C19': ('5.C19', 'close-ordering monitor (no send after a close request in one list) on every step harness; own steps: DISCONNECT v3.1.1/v5.0, the three timer expiries, protocol-error paths of v3.1.1 and v5.0, Receive-Maximum / Packet-too-large / Topic-Alias-invalid automatic DISCONNECTs, recv() framing error. ' + STEP),
+    'C20': ('5.C20', 'inductive step of the allocator (arbitrary range, arbitrary valid pool of <=3 (thorough: 4) runs, one symbolic operation, universal probe) at full u16/u32 width + base case + u8 histories; base+step cover histories of any length whose pool stays within the run bound'),
 }
 NA = {
     'C01': 'two live endpoints exchanging bytes under symbolic interleaving/loss over many steps is out of reach of the engine on this code (one object, four public calls: 37 GB, no verdict); no single inductive step expresses end-to-end termination/exactly-once. One-sided ingredients are decided under C06/C07/C08/C09/C10/C12.',
@@ -56,7 +68,7 @@ def main():
             'guard': 'cargo features verif-hooks / verif-models (both off by default) + cfg(kani)',
             'enable': 'cargo kani --features verif-hooks,verif-models with VERIF_HARNESS_DIR=/verif/harness (replay: --features verif-hooks only, real containers)',
             'baseline_off_cmd': 'cd /repo && cargo test --workspace --no-fail-fast --offline',
-            'source_commits': ['23a5c46'],
+            'source_commits': ['23a5c46', '28a9b80', '9b9e0ae'],
             'add_only': True,
         },
         'engines': [{'name': 'kani-cbmc', 'path': 'bin/check', 'serves_properties': [c['property_id'] for c in checks],
